@@ -58,7 +58,7 @@ const OPT_NAMES: [&str; 5] = [
     "UseProvided(Some)",
 ];
 const HFIELD_NAMES: [&str; 7] = ["all-ones", "len", "len-1", "len+1", "0", "2^63", "random"];
-const XSIZE_NAMES: [&str; 5] = ["len", "len-1", "len+1", "0", "mid-stream"];
+const XSIZE_NAMES: [&str; 10] = ["len", "len-1", "len+1", "0", "mid-stream", "2^64-1", "2^64-2", "2^63", "2^32", "len+2^32"];
 const OUTCOME_NAMES: [&str; 8] = [
     "ok:size-reached",
     "ok:marker",
@@ -223,6 +223,11 @@ pub fn build(rng: &mut Rng, tier: Tier) -> Option<Built> {
             1 => true_len.saturating_sub(1),
             2 => true_len + 1,
             3 => 0,
+            5 => u64::MAX,
+            6 => u64::MAX - 1,
+            7 => 1 << 63,
+            8 => 1 << 32,
+            9 => true_len + (1 << 32),
             _ => {
                 // a symbol boundary or a point inside a symbol, somewhere in the middle
                 if table.is_empty() {
@@ -455,7 +460,7 @@ fn fam_table(ctx: &CaseCtx, cov: &mut Cov) -> CaseOut {
         cov.inc("provided_size", x as u32);
     }
     cov.inc("expected_outcome", outcome_class(&exp, b.size_in_effect));
-    cov.add("table_cell", (b.opt_idx * 100 + b.hfield_idx * 10 + b.xsize_idx.map(|x| x + 1).unwrap_or(0)) as u32, 1);
+    cov.add("table_cell", (b.opt_idx * 1000 + b.hfield_idx * 20 + b.xsize_idx.map(|x| x + 1).unwrap_or(0)) as u32, 1);
     cov.name(if b.marker { "stream.with_marker" } else { "stream.without_marker" }, 1);
     if b.trailing > 0 {
         cov.name("stream.with_trailing_bytes", 1);
@@ -518,7 +523,7 @@ fn label(group: &str, i: u32) -> String {
         "provided_size" => XSIZE_NAMES[i as usize].to_string(),
         "expected_outcome" => OUTCOME_NAMES[i as usize].to_string(),
         "table_cell" => {
-            let (o, h, x) = ((i / 100) as usize, ((i / 10) % 10) as usize, (i % 10) as usize);
+            let (o, h, x) = ((i / 1000) as usize, ((i % 1000) / 20) as usize, (i % 20) as usize);
             format!(
                 "{}|{}|{}",
                 OPT_NAMES[o],
@@ -536,7 +541,7 @@ fn floors(_: Tier, cov: &Cov) -> Vec<String> {
     if cov.group_nonzero("expected_outcome") < 7 {
         m.push(format!("only {}/7 outcome classes produced", cov.group_nonzero("expected_outcome")));
     }
-    if cov.group_nonzero("option") < 5 || cov.group_nonzero("header_field") < 7 || cov.group_nonzero("provided_size") < 5 {
+    if cov.group_nonzero("option") < 5 || cov.group_nonzero("header_field") < 7 || cov.group_nonzero("provided_size") < 10 {
         m.push("option/header-field/provided-size table not fully covered".into());
     }
     m
@@ -546,7 +551,7 @@ pub fn monitor(tier: Tier) -> Monitor {
     Monitor {
         id: "C08",
         level: "exploration",
-        rule: "cases = table cells (5 option shapes x 7 header-field values x 5 provided sizes) over generated streams (with/without end marker, marker early, long final match, trailing bytes, truncation), each decided by the reference decoder run with the size in effect, executed through lzma_decompress_with_options and through Stream (whole and in random pieces); plus size-0 streams checking the 13/13/5 header bytes under all reader kinds; non-trivial = lzma-rs decoded >= 1 symbol (hook) or the stream is the empty stream; distinct by hash of (file, option, size in effect)",
+        rule: "cases = table cells (5 option shapes x 7 header-field values x 10 provided sizes incl. 2^64-1, 2^64-2, 2^63, 2^32, len+2^32) over generated streams (with/without end marker, marker early, long final match, trailing bytes, truncation), each decided by the reference decoder run with the size in effect, executed through lzma_decompress_with_options and through Stream (whole and in random pieces); plus size-0 streams checking the 13/13/5 header bytes under all reader kinds; non-trivial = lzma-rs decoded >= 1 symbol (hook) or the stream is the empty stream; distinct by hash of (file, option, size in effect)",
         assumptions: vec![
             "oracle = reference decoder (self-checked against liblzma) applying the rules of the statement".into(),
             "documented leniency, not alarmed on: with no size in effect lzma-rs also accepts input ending at a symbol boundary with range-coder code 0 and no marker (either verdict accepted there; bytes must still be exact)".into(),
